@@ -319,6 +319,31 @@ def r_find(repo, rep):
   g = cfgmod.CFG(f.node)
   rd = dataflow.Reaching(g)
   param = f.params[0]
+  # whatever the shape of the function: an entry that is taken apart with a regular expression must be consumed as a whole by
+  # it (or by another whole-string match).  Decided from the pattern (re._parser): match/search with a pattern that need not
+  # reach the end, findall/finditer always.  Looked for in the function and in the helpers of the module it calls.
+  from mmsa import regexes
+  scope = [f] + [h for q_, h in repo.functions.items() if h.module is f.module and h is not f and not (repo.pinned_names and q_ in repo.pinned_names)
+                 and any(isinstance(c_, ast.Call) and isinstance(c_.func, ast.Name) and c_.func.id == h.name for c_ in ast.walk(f.node))]
+  rx = []
+  for fn_ in scope:
+    for c_ in ast.walk(fn_.node):
+      if isinstance(c_, ast.Call) and isinstance(c_.func, ast.Attribute) and c_.func.attr in ('match', 'search', 'fullmatch', 'findall', 'finditer'):
+        if au.lib_name(fn_.module, c_.func) in ('re.match', 're.search', 're.fullmatch', 're.findall', 're.finditer') and c_.args:
+          pat_ = regexes.fold_string(c_.args[0], fn_.module.assigns)
+        else:
+          pat_ = regexes.compiled_pattern(c_.func.value, fn_.module.assigns)
+        if pat_ is None:
+          continue
+        whole_ = False if c_.func.attr in ('findall', 'finditer') else regexes.whole_string(c_.func.attr, pat_)
+        rx.append((fn_, c_, pat_, whole_))
+  splits_ = any(isinstance(c_, ast.Call) and isinstance(c_.func, ast.Attribute) and c_.func.attr in ('split', 'partition', 'rsplit', 'rpartition') for fn_ in scope for c_ in ast.walk(fn_.node))
+  if rx and not splits_ and not any(w_ for _f, _c, _p, w_ in rx):
+    fn_, c_, pat_, _w = rx[0]
+    rep.violation('R4/parse', fn_.qualname, norm(c_)[:100],
+                  'the entry is parsed with `%s`, whose pattern %r does not have to consume the whole entry: text outside the matched part(s) is ignored, so a malformed entry (a third part, stray characters, a wrong separator) is accepted instead of raising ValueError'
+                  % (norm(c_)[:60], pat_[:80]), fn_.loc(c_))
+    return
   loops = [n for n in g.nodes if n.kind == 'for']
   rets = [n for n in g.nodes if n.kind == 'return' and n.ast.value is not None]
   rv_ = rets[0].ast.value if len(rets) == 1 else None
